@@ -276,7 +276,7 @@ def make_recipe(ctx, k):
     else:
         kw = {'max_n': 4, 'min_n': 2, 'coords_as': rng.choice(['coords', 'vars']), 'bounds': rng.choice(['stored', 'stored', 'none']),
               'bounds_as': rng.choice(['vars', 'vars', 'coords'])}
-    recipe = G.random_recipe(rng, conv, ctx.tier, **kw)
+    recipe = G.random_recipe(rng, conv, ctx.tier, vary=True, **kw)
     return G.attach_vars(rng, recipe, n_vars=2, max_extra=1, dtypes=('f8', 'f4', 'i4', 'i8'))
 
 
@@ -302,6 +302,16 @@ def run(ctx) -> None:
     items: list = []
     for k in range(ctx.budget(50, 400)):
         recipe = make_recipe(ctx, k)
+        ctx.guarded(lambda: examine(ctx, recipe, items), {'recipe': recipe})
+    # meshes as they come out of a file: decoded tables (float, NaN) whose fill value lives in the encoding, for every
+    # integer fill value x index base x set of optional tables in turn
+    rng = ctx.rng
+    for k in range(ctx.budget(12, 80)):
+        spec = ['low', 'neg', 'i4big', 'u4max', 'i2', 'i8max'][k % 6]
+        recipe = G.random_recipe(rng, 'ugrid', ctx.tier, max_w=3, max_h=2, coords_as='vars', fill='attr', fill_spec=spec,
+                                 start_index=(k // 6 + k) % 2, tables=G.tables_for(k + k // 10))
+        recipe['vary'] = {'via_file': True}
+        recipe = G.attach_vars(rng, recipe, n_vars=2, max_extra=1, dtypes=('f8', 'f4', 'i4'))
         ctx.guarded(lambda: examine(ctx, recipe, items), {'recipe': recipe})
     if ctx.searching and ctx.driver is None:
         ctx.evaluated(len(items))
